@@ -64,7 +64,7 @@ def build_jobs(tier, rng):
         if s and (i < n_le2 or i % 4 == 1):
             add("arrforce", "short", s)
         for lim in L.SMALL_LIMITS_SHORT:
-            if len(s) >= 2 and (i < n_le2 or (i + lim) % (3 if quick else 2) == 0):
+            if len(s) >= 2 and (i < n_le2 or (i + lim) % (3 if quick else 4) == 0):
                 add("split", "short", s, limit=lim)
 
     for b in range(256):
@@ -87,13 +87,13 @@ def build_jobs(tier, rng):
     offs = range(1984, 2002)
     for ci, core_ in enumerate(cores):
         for oi, pre in enumerate(offs):
-            if quick and (ci + oi + shift) % 12:
+            if (ci + oi + shift) % (12 if quick else 3):
                 continue
             data = b"a" * pre + core_ + b"b" * 7 + core_
             add("const" if (ci + oi) % 2 else "lit", "adv-2000", data, core=core_.hex())
     # second chunk end: filler so that another core meets offset ~4000 of the escaped text
     for ci, core_ in enumerate(cores):
-        if quick and (ci + shift) % 12:
+        if (ci + shift) % (12 if quick else 3):
             continue
         for pre in (1993, 1996, 1998, 1999):
             data = b"a" * pre + core_ + b"c" * (1990 - len(core_)) + core_ + core_ + b"d" * 9 + core_
@@ -110,13 +110,13 @@ def build_jobs(tier, rng):
             for pre in (0, 1, 2):
                 add("split", "bsrun-small", b"x" * pre + b"\\" * max(n, 1) + b"n", limit=lim, run=n)
     # random long strings, heavy in special characters
-    for _ in range(40 if quick else 500):
+    for _ in range(40 if quick else 200):
         add("const" if rng.random() < 0.5 else "lit", "random-long", L.weighted_random_bytes(rng, rng.randint(700, 2600)))
     for _ in range(300 if quick else 6000):
         add("split", "random-small", L.weighted_random_bytes(rng, rng.randint(4, 40)), limit=rng.choice(L.SMALL_LIMITS_ADV))
     # the table of large integer constants: digits 0-7 follow the \000 separators
     b32 = "0123456789abcdefghijklmnopqrstuv"
-    for _ in range(30 if quick else 400):
+    for _ in range(30 if quick else 150):
         digits, total = [], 0
         target = rng.randint(1900, 4300)
         while total < target:
@@ -133,8 +133,7 @@ def build_jobs(tier, rng):
         add("cconst", "huge", (pat * 120)[:30000])
         add("const", "huge", (b"abcdefghij" * 40 + pat)[:700] * 94)   # 65800 bytes
         add("const", "huge", (pat * 200)[:65535])             # just below the threshold: one literal only
-        add("const", "huge", (pat * 200)[:65536])
-        add("const", "huge", L.weighted_random_bytes(rng, 70000))
+        add("const", "huge", L.weighted_random_bytes(rng, 65536))   # exactly at the threshold
         add("cconst", "huge", L.weighted_random_bytes(rng, 30000))
     return jobs
 
@@ -277,7 +276,7 @@ def run(tier, seed):
 
     def long_run():
         try:
-            long_box["verdicts"] = run_tlc([records[i] for i in sorted(long_ids)], core.subdir("c11long"), long_cov, "long", workers=2)
+            long_box["verdicts"] = run_tlc([records[i] for i in sorted(long_ids)], core.subdir("c11long"), long_cov, "long", workers=4)
         except BaseException as e:      # SystemExit from core.die included
             long_box["error"] = e
 
@@ -446,7 +445,9 @@ def run(tier, seed):
             cov["samples"].append({"family": fam, "form": meta[i]["job"]["form"], "limit": meta[i]["job"].get("limit", "default"),
                                    "input_hex": (meta[i]["job"].get("hex") or "")[:80], "emitted_text": meta[i]["str_text"][:160],
                                    "emitted_length": len(meta[i]["str_text"]), "spec_verdict": v_of(i)})
-    cov["exhaustive"] = not quick
+    cov["exhaustive"] = False
+    cov["exhaustive_part"] = ("byte strings of length <= 2 over the 40 representatives in every form" if quick else
+                              "byte strings of length <= 3 over the 40 representatives through as_c_string_literal")
     return finish(rep, cov, tier, seed, t0)
 
 
@@ -454,12 +455,15 @@ def finish(rep, cov, tier, seed, t0):
     rc = rep.finish()
     cov["known_findings"] = rep.kf_summary()
     cov["rule"] = ("inputs: every byte string of length <= 2 over 40 representative bytes (case split of the escaper and of the C "
-                   "reading rules), length 3 %s; each through BytesLiteral.as_c_string_literal, Code._write_escaped_cstring_const and "
-                   "split_string_literal with limits 6..12; all 256 bytes through escape_char; adversarial cores (backslash runs, ??x, "
-                   "digits/hex letters after escapes, quotes) at every alignment to chunk limits 8..16 and to the real limit 2000 "
-                   "(first and second chunk end); long backslash runs; random special-heavy strings; the \\000-joined table of large "
-                   "integers; >= 64K strings (character-array branch).  non-trivial = distinct (form, limit, input) whose emitted text "
-                   "contains an escape sequence or a literal split." % ("seeded sample of 7000" if tier == "quick" else "exhaustively (64000)"))
+                   "reading rules) through as_c_string_literal, _write_escaped_cstring_const, the character-array branch of "
+                   "_write_cstring_const and split_string_literal with limits 6..12; length 3: %s; all 256 bytes through escape_char; "
+                   "adversarial cores (backslash runs, ??x, digits/hex letters after escapes, quotes) at every alignment to chunk "
+                   "limits 8..16 (quick: a seed-dependent third) and at %s of the 18 alignments to the real limit 2000 (first and "
+                   "second chunk end, seed-dependent choice); long backslash runs; random special-heavy strings; the \\000-joined "
+                   "table of large integers; strings whose (escaped) length reaches 64K (real character-array branch).  non-trivial = "
+                   "distinct (form, limit, kind, input) whose emitted text contains an escape sequence or a literal split."
+                   % ("seeded sample of 7000 of 64000" if tier == "quick" else "all 64000 through as_c_string_literal, a quarter through "
+                      "each emitter form, 1.75 of 7 small limits each", "a twelfth" if tier == "quick" else "a third"))
     if not cov["samples"]:
         cov["samples"] = [{"note": "the real code did not produce any record"}]
     core.write_evidence(PROP, tier, seed, "model_checking", cov, time.time() - t0,
